@@ -19,7 +19,12 @@ PROVED = ("C09_bytes (for every valid picture object: writeCustom f = Spec.encod
           "Tileset.spec_read (the loader accepts every Spec-encoded file).  Bridging: C09_gen_layout (34 measured offsets/sizes/constants/tags), "
           "C09_spec_constants; Props/C09_Gen.lean (translated from the current source, for ALL field values): C09_gen_validateTileset "
           "(Tileset::ValidateTileset = validateTs), C09_gen_tilesetHeader_validate, C09_gen_ppalHeader_validate (TilesetHeader::Validate / "
-          "PpalHeader::Validate = the header guards of the model's reader, tags as their four bytes)")
+          "PpalHeader::Validate = returns (tilesetHeaderOk ..) / returns (ppalHeaderOk ..): the NAMED model predicates the reader Rd.custom calls as "
+          "its header guards, tags as their four bytes); C09_reader_checks_headers (model only, every byte string b: readCustom b = ok -> both "
+          "predicates hold of the fields decoded at offsets 8..27 / 36..55 of b; either predicate false -> readCustom b is an error; and = err format "
+          "when b holds the header (36 / 56 bytes) and everything before the guard is accepted); C09_gen_reader_headers (both halves: on b of >= 56 "
+          "bytes the translated C++ functions applied to the stored fields return exactly when the predicates hold; a file the model's reader accepts "
+          "is one on which both return; a file with an accepted signature section on whose header TilesetHeader::Validate throws is refused with format)")
 PARTIAL = ("C09_custom_rt assumes 32*|height| <= the 1 GiB harness allocation cap; C09_bmp_same is stated for objects with the reader's invariants "
            "(everything ReadIndexed / ReadTileset / the factories return), not for hand-assembled records; the PBMP length formula and the pixel "
            "section length are tied to the source by the byte comparison only (not extracted)")
